@@ -40,6 +40,8 @@ func runC15(c *core.Ctx, r *core.Reporter) {
 	c15via(c, r)
 	c15cursor(c, r)
 	c15zeroword(c, r)
+	// ~A and ~S agree with princ and prin1 under any *print-base*: the printers' digit conversions
+	c03baseAs(c, r, "C15.base")
 	runUnits(c, r, "C15.units", 1000,
 		"characters are not bytes: in every function of the module a value that counts characters (utf8.RuneCount*, len([]rune(s)), a module function returning one, e.g. String.Length) is never an index or slice bound of a string or []byte and is never stored into a struct field that holds byte offsets (fields that receive len(bytes) or index bytes, such as the format interpreter's control.end and control.pos, found by use)",
 		func(fn *ssa.Function) bool { return fn.Pkg != nil })
